@@ -116,6 +116,8 @@ def run_property(prop, tier, seed, opts):
                 if len(samples) < 12 and (n_obl % 7 == 1):
                     samples.append({"obligation": o.group, "line": o.line, "status": "unsat", "solver": o.solver,
                                     "time_s": round(o.time, 3), "smt2": os.path.relpath(o.smt2, VERIF)})
+            elif o.kind == "unreachable":
+                rep.errors.append(f"UNSUPPORTED construct reachable in {c.key} at line {o.line}: {o.note[0] if isinstance(o.note, tuple) else o.note}")
             else:
                 failing.append((r, o))
 
